@@ -174,13 +174,15 @@ class Intersection:
         Filter the pairs (t*, u*) such abs(curvea(t*) - curveb(u*)) > tolerance
         """
         pairs = heavy.totuple(pairs)
+        if len(pairs) == 0:
+            return tuple()
         distances = np.empty(len(pairs), dtype="float64")
         for k, (pti, puj) in enumerate(pairs):
             pointati = curvea.eval(pti)
             pointbuj = curveb.eval(puj)
             distances[k] = np.linalg.norm(pointati - pointbuj)
         distances = np.abs(distances)
-        matchs = np.abs(distances - np.min(distances)) < tolerance
+        matchs = distances < max(tolerance, 1e-6)
         pairs = np.array(pairs, dtype="float64")[matchs]
         return heavy.totuple(pairs)
 
